@@ -355,6 +355,28 @@ func c26Gen(r *Rng, tier string, emit func(string)) {
 			}
 			return genAddr(r)
 		}
+		if max > 0 && r.Chance(25) {
+			// eviction pressure: a FULL list whose peers were all seen in the same second (ties on LastSeen), some of
+			// them trusted, with retry counters that differ between trusted and untrusted peers; a day later new
+			// addresses arrive one at a time.  Whatever tie-break the eviction uses, the victim must be untrusted.
+			for q := 0; q < 2*max+2; q++ {
+				emit("addpeer " + hx(pick(r, pool)))
+			}
+			for q, m := 0, r.Range(1, max); q < m; q++ {
+				a := pick(r, pool)
+				emit("trust " + hx(a))
+				for c, mc := 0, r.Intn(4); c < mc; c++ {
+					emit("incretry " + hx(a))
+				}
+			}
+			if r.Chance(50) {
+				emit("incretry " + hx(pick(r, pool)))
+			}
+			emit("advance " + strconv.Itoa([]int{86400, 86401, 90000, 86399}[r.Intn(4)]))
+			for q, m := 0, r.Range(2, 5); q < m; q++ {
+				emit("addpeer " + hx(pick(r, okIPs)+":"+pick(r, okPorts[:3])))
+			}
+		}
 		n := r.Range(1, 40)
 		for j := 0; j < n; j++ {
 			switch k := r.Intn(100); {
